@@ -336,7 +336,14 @@ class GetPutUnit(Unit):
 
     @property
     def loops(self):
-        sp = LoopSpec(inv=lambda s, ex: z3.And(s.ghost['clock'] >= 0, s.env['t0'] == 0), keep=('func', 'exc', 'stop_requested', 'wait_interval_seconds', 'time_total', 't0'))
+        def inv(s, ex):
+            from pyvc.core import as_num
+            total = as_num(ex, s, s.env['time_total']) if not (z3.is_expr(s.env['time_total']) and s.env['time_total'].sort() in (z3.RealSort(), z3.IntSort())) else s.env['time_total']
+            avail = s.env['time_available']
+            # the time budget: what the caller said (a whole day stands in for "no timeout"; 0 means 0), and what is left of it is exactly total - elapsed
+            budget = (total == 3600 * 24) if self.timeout_none else (total == self.timeout)
+            return z3.And(s.ghost['clock'] >= 0, s.env['t0'] == 0, budget, avail == total - s.ghost['clock'], z3.Or(avail > 0, s.ghost['clock'] == 0))
+        sp = LoopSpec(inv=inv, keep=('func', 'exc', 'stop_requested', 'wait_interval_seconds', 'time_total', 't0'))
 
         def head(h, ex):
             h.ghost['#polled'] = None
@@ -360,6 +367,9 @@ class GetPutUnit(Unit):
             else:
                 ex.oblige(s, 'exit(raise): StopRequested only if the stop event was seen set; otherwise the operation\'s own Empty/Full after the total timeout',
                           z3.Or(z3.And(V.isinst(p, 'StopRequested'), self.stop.get(s, 'flag')), V.isinst(p, 'queue.Empty')))
+                if not self.timeout_none:
+                    ex.oblige(s, 'exit(raise): [C17/C19] the call has waited no longer than the caller\'s timeout in total -- a timeout of 0 polls once and gives up at once',
+                              s.ghost['clock'] <= self.timeout)
 
 
 class GetPutUnitNoTimeout(GetPutUnit):
